@@ -172,6 +172,18 @@ def divide(lhs, rhs):
     return lhs / rhs
 
 
+def modulo(lhs, rhs):
+    '''
+    Remainder of dividing two values. For integers it is the remainder of the
+    truncating division above, i.e. (a / b) * b + a % b == a.
+    '''
+    is_int = lambda value: isinstance(value, int) and not isinstance(value, bool)
+    if is_int(lhs) and is_int(rhs):
+        return lhs - rhs * divide(lhs, rhs)
+    
+    return lhs % rhs
+
+
 class ActionWalker(xtuml.Walker):
     domain = None
     return_value = None
@@ -405,7 +417,7 @@ class ActionWalker(xtuml.Walker):
             '-':   lambda lhs, rhs: (lhs - rhs),
             '*':   lambda lhs, rhs: (lhs * rhs),
             '/':   divide,
-            '%':   lambda lhs, rhs: (lhs % rhs),
+            '%':   modulo,
             '<':   lambda lhs, rhs: (lhs < rhs),
             '<=':  lambda lhs, rhs: (lhs <= rhs),
             '>':   lambda lhs, rhs: (lhs > rhs),
